@@ -14,6 +14,7 @@ bfs_fuel_suffices_full, ids_depth_monotone_full.
 import JsonV.Lemmas.FieldsFinish
 import JsonV.Lemmas.FieldsFold
 import JsonV.Lemmas.FieldsLookup
+import JsonV.Lemmas.FieldsEscape
 
 namespace JsonV.Props.C15
 open JsonV JsonV.Model JsonV.Model.Fields JsonV.Spec.FieldRule JsonV.Lemmas.Fields
@@ -195,6 +196,10 @@ theorem omit_spec (o : FieldOpts) (omitZeroStructFields omitEmptyLegacy zero leg
   unfold omitted
   cases o.omitzero <;> cases o.omitempty <;> cases omitZeroStructFields <;> cases omitEmptyLegacy <;>
     cases zero <;> cases legacyEmpty <;> cases jsonEmpty <;> simp
+
+/-- The fuel of the `NeedEscape` loop model (number of bytes) suffices: any larger fuel gives the same answer. -/
+theorem needEscape_fuel_suffices (fuel : Nat) (b : Bytes) (h : b.length ≤ fuel) : needEscapeAux fuel b = needEscape b :=
+  needEscape_fuel fuel b h
 
 /-- Unknown members: captured by the fallback if there is one, else rejected iff `RejectUnknownMembers`. -/
 theorem unknown_spec (hasFallback rejectUnknown : Bool) :
